@@ -84,6 +84,8 @@ func nonSuccessReason(ls LabelSet) (bool, string) {
 
 func checkC13(cx *Ctx, r *Report) {
 	w, fx := cx.W, cx.Fx
+	// request data must not be shared between requests through recycled buffers (R-POOL, see C15)
+	cx.checkPoolEscape(r)
 	r.Clauses = []string{
 		"Success only after the whole chain: makeSuccessfulLogoutResponse has one call site, after CheckFailed; the chain contains form, decode, time-window (IssueInstant as lower, NotOnOrAfter as upper bound; guard = documented orderings), and SP lookup by Issuer; every callback answers with makeFailedLogoutResponse and a non-Success status constant",
 		"wiring: InResponseTo <- decoded request ID; Issuer <- IdP entity ID; LogoutURL / Destination <- the first SingleLogoutService location of the looked-up provider; RelayState <- the form value unchanged",
@@ -100,6 +102,7 @@ func checkC13(cx *Ctx, r *Report) {
 	if ch == nil {
 		return
 	}
+	cx.checkNoPassWithoutProvider(r, ch, "slo")
 	one := func(name string, ss []*Step) *Step {
 		if len(ss) == 1 {
 			r.Ok("R-STEP", "slo:"+name, ss[0].Pos, "step recognised")
@@ -333,7 +336,7 @@ func checkC13(cx *Ctx, r *Report) {
 	} else {
 		r.Fail("R-GUARD", "sendBackLogoutResponse", "", "anchor not found")
 	}
-	r.Min("R-VFG", 8)
+	r.Min("R-VFG", 5)
 }
 
 // isFirstRangeElem: v is (a copy of / pointer to) list[i] with i the induction variable of a front-to-back range loop.
